@@ -395,6 +395,121 @@ func runC17(c *an.Ctx) {
 		},
 	})
 
+	// one retry on a stale pooled connection, on a connection created for it
+	decide(c, "C17-R4", fw+"(*UpstreamPlain).exchangeNet", an.DecideCfg{
+		Dom: an.Domain{"p3": an.Strs(netTCP, netUDP), "packerr": an.Bools, "geterr": an.Bools, "proc1": an.Strs("ok", "stale", "other"),
+			"createerr": an.Bools, "proc2err": an.Bools, "p0.connsPoolTCP": {an.NonNil("tcppool")}, "p0.connsPoolUDP": {an.NonNil("udppool")}},
+		OnCall: func(it *an.Interp, name string, args []an.AV) (an.AV, bool) {
+			tup := func(v an.AV, errKey string, fail bool) an.AV {
+				if fail {
+					return an.AV{Kind: an.KTuple, Tup: []an.AV{an.Nil(), an.NonNil(errKey)}}
+				}
+				return an.AV{Kind: an.KTuple, Tup: []an.AV{v, an.Nil()}}
+			}
+			switch {
+			case strings.HasSuffix(name, ").getBuffer"):
+				return an.NonNil("bufptr"), true
+			case strings.HasSuffix(name, ").putBuffer"):
+				return an.Nil(), true
+			case strings.HasSuffix(name, ").packReq"):
+				if it.Feature("packerr").IsTrue() {
+					return an.AV{Kind: an.KTuple, Tup: []an.AV{an.CInt(0), an.NonNil("packErr")}}, true
+				}
+				return an.AV{Kind: an.KTuple, Tup: []an.AV{an.Sym("reqlen"), an.Nil()}}, true
+			case strings.HasSuffix(name, "pool.Pool).Get"):
+				return tup(an.NonNil("pooled:"+args[0].String()), "getErr", it.Feature("geterr").IsTrue()), true
+			case strings.HasSuffix(name, "pool.Pool).Create"):
+				return tup(an.NonNil("fresh:"+args[0].String()), "createErr", it.Feature("createerr").IsTrue()), true
+			case strings.HasSuffix(name, ").processConn"):
+				conn := args[2].String()
+				if strings.Contains(conn, "pooled:") {
+					switch avStr(it.Feature("proc1")) {
+					case "ok":
+						return an.AV{Kind: an.KTuple, Tup: []an.AV{an.NonNil("resp1"), an.Nil()}}, true
+					case "stale":
+						return an.AV{Kind: an.KTuple, Tup: []an.AV{an.Nil(), an.NonNil("err:stale")}}, true
+					}
+					return an.AV{Kind: an.KTuple, Tup: []an.AV{an.Nil(), an.NonNil("err:other")}}, true
+				}
+				return tup(an.NonNil("resp2"), "err2", it.Feature("proc2err").IsTrue()), true
+			case strings.HasSuffix(name, "forward.isExpectedConnErr"):
+				return an.CBool(args[0].Kind == an.KNonNil && args[0].Key == "err:stale"), true
+			case name == "fmt.Errorf":
+				return an.NonNil("wrapped"), true
+			}
+			return an.AV{}, false
+		},
+		Expect: func(f an.Features, o an.AOutcome) string {
+			if o.Exit != "return" || len(o.Ret) != 2 {
+				return "a (resp, err) result"
+			}
+			wantPool := "nonnil:udppool"
+			if f.S("p3") == netTCP {
+				wantPool = "nonnil:tcppool"
+			}
+			var procs []string
+			gets, creates := 0, 0
+			for _, e := range o.Effects {
+				if e.Kind != "call" {
+					continue
+				}
+				switch {
+				case strings.HasSuffix(e.Name, "pool.Pool).Get"):
+					gets++
+					if e.Args[0] != wantPool {
+						return "the connection pool of the requested network (" + wantPool + "); got " + e.Args[0]
+					}
+				case strings.HasSuffix(e.Name, "pool.Pool).Create"):
+					creates++
+					if e.Args[0] != wantPool {
+						return "the connection pool of the requested network (" + wantPool + "); got " + e.Args[0]
+					}
+				case strings.HasSuffix(e.Name, ").processConn"):
+					procs = append(procs, e.Args[2])
+				}
+			}
+			switch {
+			case f.B("packerr"):
+				if gets+creates+len(procs) == 0 && o.Ret[1].Kind != an.KNil {
+					return ""
+				}
+				return "an error and no connection when the request cannot be packed"
+			case f.B("geterr"):
+				if len(procs) == 0 && o.Ret[1].Kind != an.KNil {
+					return ""
+				}
+				return "an error when no connection can be had"
+			case f.S("proc1") == "ok":
+				if len(procs) == 1 && creates == 0 && o.RetString() == "nonnil:resp1, nil" {
+					return ""
+				}
+				return "the first exchange's reply, without a retry"
+			case f.S("proc1") == "other":
+				if len(procs) == 1 && creates == 0 && o.Ret[1].Kind != an.KNil {
+					return ""
+				}
+				return "the first exchange's error, without a retry, for errors that do not indicate a stale pooled connection"
+			}
+			// stale pooled connection
+			if gets != 1 || creates != 1 {
+				return fmt.Sprintf("exactly one retry on a connection created for it (a second pooled connection may be just as stale); got %d Get and %d Create calls", gets, creates)
+			}
+			if f.B("createerr") {
+				if len(procs) == 1 && o.Ret[1].Kind != an.KNil {
+					return ""
+				}
+				return "an error when the fresh connection cannot be created"
+			}
+			if len(procs) != 2 || !strings.Contains(procs[1], "fresh:") {
+				return "the retry to use the freshly created connection; got " + strings.Join(procs, ", ")
+			}
+			if f.B("proc2err") != (o.Ret[1].Kind != an.KNil) || (!f.B("proc2err") && o.Ret[0].String() != "nonnil:resp2") {
+				return "the retry's result returned"
+			}
+			return ""
+		},
+	})
+
 	// ---- R4
 	decide(c, "C17-R4", fw+"(*UpstreamPlain).readValidMsg", an.DecideCfg{
 		Dom: an.Domain{"readerr": an.Bools, "valid": an.Bools},
